@@ -325,3 +325,95 @@ Section Examples.
     cbv zeta. split; [intros x y H; exact H|]. repeat split; vm_compute; reflexivity.
   Qed.
 End Examples.
+
+(* ================= item text and the display ("items never change after they have been read") =================
+   Statements only; proofs live in proofs/TextStoreProofs.v.  Memory is an append-only store of backing arrays, a slice
+   is (array, offset, length), append writes in place while the capacity lasts (model/TextStoreModel.v).  The width of
+   a character (`ovf`, util.RunesWidth) is a parameter: the theorems hold for every width function. *)
+From Fzf Require Import TextStoreModel TextStoreProofs DisplaySpec.
+
+(* display_never_writes_item: Terminal.itemLines (the plain single-line list, --read0 multi-line items, --wrap) hands
+   the renderer lines that live in arrays allocated by the call.  WHATEVER the holder of those lines then does with
+   them - re-slicing, append (printHighlighted's append(line[:n], ellipsis...)), assigning elements, in any order and
+   any number of times - every array that existed before the call is unchanged: the text of the displayed item and
+   of every other item reads the same, in both representations (bytes, runes). *)
+Theorem display_never_writes_item : forall ovf (m : tmem) (ch : chars) (wrap multiLine : bool) (atMost wrapCols signW tabstop : Z)
+    m1 lines overflow (prog : list pop) m2 regs,
+  item_lines ovf true m ch wrap multiLine atMost wrapCols signW tabstop = Ok (m1, lines, overflow) ->
+  prun m1 lines prog = Ok (m2, regs) ->
+  firstn (length m) m2 = m /\
+  forall it : chars, (sl_cell (ch_sl it) < length m)%nat -> chars_text m2 it = chars_text m it.
+Proof. exact display_never_writes_item_proof. Qed.
+
+(* lines_never_alias: the same for Chars.Lines itself with arbitrary arguments (numItemLines, the header, previews). *)
+Theorem lines_never_alias : forall ovf (m : tmem) (ch : chars) (multiLine : bool) (maxLines wrapCols signW tabstop : Z)
+    m1 lines overflow (prog : list pop) m2 regs,
+  chars_lines ovf true m ch multiLine maxLines wrapCols signW tabstop = Ok (m1, lines, overflow) ->
+  prun m1 lines prog = Ok (m2, regs) ->
+  firstn (length m) m2 = m /\
+  forall it : chars, (sl_cell (ch_sl it) < length m)%nat -> chars_text m2 it = chars_text m it.
+Proof. exact lines_never_alias_proof. Qed.
+
+(* the display-side spec evaluated on a running fzf means what it says: no reported item differs from the record that
+   was read / the literal exact filter lists exactly the items in which the query occurs, in input order *)
+Theorem changed_items_none : forall orig reported,
+  changed_items orig reported = [] <->
+  forall i t, In (i, t) reported -> 0 <= i /\ nth_error orig (Z.to_nat i) = Some t.
+Proof. exact changed_items_none_proof. Qed.
+
+Theorem substr_filter_spec : forall q items first i,
+  In i (substr_filter q first items) <->
+  exists k t, nth_error items k = Some t /\ i = first + Z.of_nat k /\ exists a b, t = a ++ q ++ b.
+Proof.
+  intros q items first i. rewrite substr_filter_spec_proof.
+  split; intros [k [t [H1 [H2 H3]]]]; exists k, t; (split; [exact H1 | split; [exact H2 | apply contains_iff_proof; exact H3]]).
+Qed.
+
+Print Assumptions display_never_writes_item.
+Print Assumptions lines_never_alias.
+Print Assumptions changed_items_none.
+Print Assumptions substr_filter_spec.
+
+Section DisplayExamples.
+  (* non-vacuity: "héllo wörld" + '\n' + "second line", rune-backed (array of 26 for 24 runes), shown with --wrap at
+     8 columns: 4 lines; the holder truncates the first one as printHighlighted does and overwrites an element;
+     the item reads the same afterwards *)
+  Example display_nonvacuous :
+    let t := [104; 233; 108; 108; 111; 32; 119; 246; 114; 108; 100; 10; 115; 101; 99; 111; 110; 100; 32; 108; 105; 110; 101; 33] in
+    let m : tmem := [t ++ [0; 0]] in
+    let it := mkChars false (mkSl 0 0 24) in
+    exists m1 lines m2 regs,
+      item_lines simple_ovf true m it true true 10 8 2 8 = Ok (m1, lines, false) /\ length lines = 4%nat /\
+      prun m1 lines [PSub 0 0 4; PApp 4 [183; 183]; PSet 1 0 63] = Ok (m2, regs) /\
+      map (fun s => sl_read m2 s) regs =
+        [Ok [104; 233; 108; 108; 183; 183; 119; 246]; Ok [63; 108; 100; 10]; Ok [115; 101; 99; 111; 110; 100; 32; 108];
+         Ok [105; 110; 101; 33]; Ok [104; 233; 108; 108]; Ok [104; 233; 108; 108; 183; 183]] /\
+      chars_text m2 it = Ok t.
+  Proof.
+    cbv zeta. do 4 eexists.
+    split; [vm_compute; reflexivity|]. split; [vm_compute; reflexivity|].
+    split; [vm_compute; reflexivity|]. split; vm_compute; reflexivity.
+  Qed.
+
+  (* display_alias_refuted: WITHOUT the copy (text := chars.ToRunes()), a rune-backed item shown as one multi-line
+     entry is reachable from the line the renderer truncates: append(line[:4], '·', '·') lands in the item's own
+     array and the item no longer reads "héllo world".  (A byte-backed item is safe either way: bytes_never_alias.) *)
+  Example display_alias_refuted :
+    exists m1 lines ov m2 regs,
+      item_lines simple_ovf false alias_mem alias_item false true 10 0 2 8 = Ok (m1, lines, ov) /\
+      prun m1 lines alias_prog = Ok (m2, regs) /\
+      chars_text alias_mem alias_item = Ok [104; 233; 108; 108; 111; 32; 119; 111; 114; 108; 100] /\
+      chars_text m2 alias_item = Ok [104; 233; 108; 108; 183; 183; 119; 111; 114; 108; 100].
+  Proof. exact display_alias_refuted_proof. Qed.
+
+  Example bytes_never_alias : forall m ch m1 rs prog m2 regs,
+    ch_bytes ch = true -> chars_to_runes m ch = Ok (m1, rs) -> prun m1 [rs] prog = Ok (m2, regs) ->
+    firstn (length m) m2 = m.
+  Proof. exact bytes_never_alias_proof. Qed.
+
+  Example display_spec_nonvacuous :
+    changed_items [[97; 98]; [99]] [(1, [99]); (0, [97; 98])] = [] /\
+    changed_items [[97; 98]; [99]] [(1, [99]); (0, [97; 183])] = [0] /\
+    substr_filter [98; 99] 5 [[97; 98; 99]; [98; 97; 99]; [98; 99]] = [5; 7].
+  Proof. split; [vm_compute; reflexivity|]. split; vm_compute; reflexivity. Qed.
+End DisplayExamples.
